@@ -276,7 +276,7 @@ fn irr(rng: &mut Rng, ctx: &mut Ctx) {
                 for (ci, ch) in chunks.iter().enumerate() { let mut b = vec![0x10u8]; b.extend_from_slice(ch); b.extend(std::iter::repeat(0u8).take(512 - ch.len())); b.extend((ch.len() as u16).to_be_bytes()); b.push(code); b.push((ci + 1 == chunks.len()) as u8); blocks.push(b); }
                 body.splice(i..i + 1, blocks); tags.push(format!("wrapped:{:02x}", code)); } }
         let mut junk = vec![];
-        if (what == 1 || what == 4) && r.end.is_some() && !r.double_end { junk = rng.nbytes1(12); if junk.len() == 1 + r.end.as_ref().unwrap().len() && junk[0] == 0x39 { junk[0] = 0x38; } }
+        if (what == 1 || what == 4) && r.end.is_some() && !r.double_end { junk = { let n = [1usize, 2, 3, 5, 6, 7, 8, 12, 1, 40][(rng.next() % 10) as usize]; rng.bytes(n) }; if junk.len() == 1 + r.end.as_ref().unwrap().len() && junk[0] == 0x39 { junk[0] = 0x38; } }
         if what != 5 { sizes = table(&r, &pad); } // (extra_payloads were added to `r` above)
         let x = assemble(&r, &sizes, &body, &junk, &pad);
         tags.push(format!("irr{}", what));
@@ -509,8 +509,12 @@ fn inc(rng: &mut Rng, ctx: &mut Ctx) {
     use peppi::game::Game as _;
     let go = GenOpts { max_frames: if ctx.thorough { 14 } else { 6 }, newer: false, force: None };
     for k in 0..ctx.n {
-        let (r, mut tags) = gen_replay(rng, k, &go);
-        let b = encode(&r);
+        let (mut r, mut tags) = gen_replay(rng, k, &go);
+        // one game in five carries an event of a kind the library does not know, of a boundary size (1, 300, 65534, 65535), somewhere after the
+        // Gecko list: the event-level API skips it and counts exactly the bytes it consumed
+        let b = if k % 5 == 3 { let pad = Pad::default(); let sz = [65535u16, 1, 300, 65534][(k / 5) % 4]; r.extra_payloads.push((0x7E, sz)); let mut body = body_events(&r, &pad); let ng = gecko_events(&r).len().min(body.len());
+                let at = ng + (rng.next() as usize) % (body.len() - ng + 1); let mut e = vec![0x7Eu8]; e.extend(rng.bytes(sz as usize)); body.insert(at, e); tags.push(format!("inc-unknown:{}", sz)); assemble(&r, &table(&r, &pad), &body, &[], &pad) }
+            else { encode(&r) };
         let (plan, pname) = plans(rng, b.len(), k);
         let (fl, fg) = read_line(&b, false, false);
         let mut fails: Vec<(String, String)> = vec![];
@@ -530,7 +534,8 @@ fn inc(rng: &mut Rng, ctx: &mut Ctx) {
                 if len < last_len { fails.push(("C12".into(), "frame count decreased".into())); } last_len = len;
                 // frames known to be complete: all but the newest, and the newest too once its Frame End has been seen
                 let complete = if code == 0x3C { len } else { len.saturating_sub(1) };
-                if let Some(g) = og { if let Err(e) = completed_prefix_ok(&st, g, complete) { if fails.len() < 3 { fails.push(("C12".into(), format!("after {} events: {}", trace.len() - 1, e))); fails.push(("C13".into(), format!("in-progress representation: {}", e))); } } }
+                if let Some(g) = og { if let Err(e) = completed_prefix_ok(&st, g, complete) { if fails.len() < 3 { fails.push(("C12".into(), format!("after {} events: {}", trace.len() - 1, e))); fails.push(("C13".into(), format!("in-progress representation: {}", e)));
+                    if e.contains("lacks a row") || e.contains("presence bit") { fails.push(("C04".into(), format!("event-level API, after {} events (a frame just completed): {} — every column has one entry per frame row, and the presence bit is the character's", trace.len() - 1, e))); } } } }
                 if code == 0x39 { break; }
             }
             // what `read` does after the loop
@@ -560,6 +565,13 @@ fn inc(rng: &mut Rng, ctx: &mut Ctx) {
             tags.push("embedded".into()); }
         let mut c = Case::new(format!("inc {}", hex(&b)), line); c.oracle = fails; tags.push(format!("plan:{}", pname)); c.tags = tags;
         ctx.push(c);
+        // the event-level API with the skip-frames option set (it only matters to `read`): no panic, same events accepted
+        if k % 4 == 2 { let o = read_opts(true, false);
+            let res = std::panic::catch_unwind(|| -> Result<usize, String> { let mut src = Cursor::new(&b); let raw_len = slippi::de::parse_header(&mut src, Some(&o)).map_err(|e| e.to_string())? as usize; let mut st = slippi::de::parse_start(&mut src, Some(&o)).map_err(|e| e.to_string())?;
+                let mut n = 0; while st.bytes_read() < raw_len { let code = slippi::de::parse_event(&mut src, &mut st, Some(&o)).map_err(|e| e.to_string())?; n += 1; if code == 0x39 { break; } } Ok(n) });
+            let mut c = Case::new(format!("skipcase inc-with-skip-option {}", k), String::new()); c.tags = vec!["inc-skip-opt".into()];
+            match res { Err(_) => { c.impl_out = "panic".into(); c.fail("C06", "the event-level API panics when the skip-frames option is set".to_string()); } Ok(Err(e)) => { c.impl_out = format!("err {}", e); if fl.starts_with("ok") { c.fail("C12", format!("the event-level API rejects a well-formed replay when the skip-frames option is set: {}", e)); } } Ok(Ok(n)) => c.impl_out = format!("ok {}", n) }
+            ctx.push(c); }
         // the incremental API on a stream that ends inside the raw element: every call that returns Ok has consumed exactly the bytes it was
         // given (bytes_read == stream position), and no Game End is reported unless its whole payload was there
         if k % 2 == 1 && b.len() > 40 { let raw_end = 15 + u32::from_be_bytes([b[11], b[12], b[13], b[14]]) as usize;
@@ -604,8 +616,10 @@ fn frag(rng: &mut Rng, ctx: &mut Ctx) {
         if k % 3 == 0 {
             let mut src = Chunked::new(b.clone(), plan.clone(), None); src.interrupt_every = 2 + k % 5;
             let res = std::panic::catch_unwind(move || slippi::read(src, Some(&read_opts(skip, hash))));
-            let il = match res { Err(_) => "panic".to_string(), Ok(Err(e)) => format!("err {}", e), Ok(Ok(g)) => { let mut s = dump::summary(&g); if hash { s = s.replace("hashed=none", &format!("hashed=(some {})", b.len())); } s } };
+            let mut ihash: Option<Option<String>> = None;
+            let il = match res { Err(_) => "panic".to_string(), Ok(Err(e)) => format!("err {}", e), Ok(Ok(g)) => { ihash = Some(g.hash.clone()); let mut s = dump::summary(&g); if hash { s = s.replace("hashed=none", &format!("hashed=(some {})", b.len())); } s } };
             let mut c = Case::new(reads_cmd(skip, hash, &plan, &b), il.clone()); c.tags = vec!["eintr-read".into()];
+            if let Some(h) = ihash { if hash && h.as_deref() != Some(xx.as_str()) { c.fail("C11", format!("hash over a source interrupted every {} calls (skip={}) is {:?}, XXH3-64 of the file is {}", 2 + k % 5, skip, h, xx)); } if !hash && h.is_some() { c.fail("C11", "hash reported though not requested"); } }
             if il != fl { let m = format!("read over a source interrupted every {} calls differs from the plain read: {} vs {}", 2 + k % 5, &il[..il.len().min(100)], &fl[..fl.len().min(100)]); c.fail("C12", m.clone()); if hash { c.fail("C11", m.clone()); } if skip { c.fail("C10", m.clone()); } c.fail("C06", m); }
             ctx.push(c);
         }
@@ -778,6 +792,8 @@ fn pread(rng: &mut Rng, ctx: &mut Ctx) {
             // extra unknown entries anywhere before frames.arrow (never before peppi.json: the signature must stay first)
             let mut es2 = es.clone(); let lim = es2.iter().position(|e| e.0 == "frames.arrow").unwrap_or(es2.len());
             for _ in 0..1 + rng.next() % 3 { let i = 1 + (rng.next() as usize) % lim.max(1).min(es2.len()); let i = i.min(es2.iter().position(|e| e.0 == "frames.arrow").unwrap_or(es2.len())); es2.insert(i, (["notes.txt", "extra.json", "thumb.png", "start.raw.bak", "frames.arrow.old", "DIR:./", "DIR:extras/", "extras/thumbnail.png", "RAW:72e973756de92e747874", "RAW:ff", "a/b/c/start.raw.d/x"][(rng.next() % 11) as usize].to_string(), rng.nbytes(700))); }
+            // a big foreign member (a thumbnail, a video clip) once per run: sizes around 1 MiB
+            if k == 2 { let big = [(1usize << 20) + 1, 3 << 20, 1 << 20][(ctx.seed as usize) % 3]; es2.insert(1, ("preview.bin".to_string(), vec![0x5au8; big])); }
             let a2 = tar_build(&es2);
             let res = std::panic::catch_unwind(|| peppi::io::peppi::read(Cursor::new(&a2), None).map(|g| game_sig(&g)).map_err(|e| e.to_string()));
             match res { Ok(Ok(s)) => { c.impl_out = "ok same".into(); if s != full { c.impl_out = "ok different".into(); c.fail("C18", "unknown archive entries change the game that is read"); } } Ok(Err(e)) => { c.impl_out = format!("err {}", e); c.fail("C18", format!("archive with unknown entries rejected: {}", e)); } Err(_) => { c.impl_out = "panic".into(); c.fail("C18", "reader panicked on unknown archive entries"); } }
